@@ -23,6 +23,10 @@ type DirCfg struct {
 	FanOut  int    `json:"fanOut"`
 	Name    string `json:"name"`
 	Readdir bool   `json:"readdir,omitempty"`
+	// FanOut == -1: the threshold perkeep ships with is left as it is (read
+	// at run time, never written down here) and the directory gets that many
+	// members plus ProdDelta; the members are synthesised by the executor.
+	ProdDelta int `json:"prodDelta,omitempty"`
 }
 
 type MemberOp struct {
@@ -34,6 +38,12 @@ type MemberOp struct {
 const dirStore = "d"
 
 func genDir(tier string, run int, r *simcore.Rand) *harness.Plan {
+	if run%2000 == 1117 || (tier == "thorough" && run%2000 == 117) {
+		// the splitting threshold perkeep ships with: one member less, as
+		// many, one more (every other run lowers the threshold to 3-10)
+		cfg := DirCfg{FanOut: -1, ProdDelta: r.Range(-1, 1), Name: "d"}
+		return &harness.Plan{Mode: "dir", Bubble: true, Config: harness.MustJSON(cfg)}
+	}
 	n := r.Range(3, 10)
 	cfg := DirCfg{FanOut: n, Name: []string{"d", "dir with space", "", "ünï"}[r.Intn(4)]}
 	var cnt int
@@ -167,7 +177,8 @@ func sameMembers(got, want []string) string {
 
 func execDir(rc *harness.RunCtx, p *harness.Plan, cfg *DirCfg) *harness.Outcome {
 	out := &harness.Outcome{Ops: len(p.Ops), SubRuns: 1}
-	if cfg.FanOut < 3 || cfg.FanOut > 10000 {
+	prod := cfg.FanOut == -1
+	if !prod && (cfg.FanOut < 3 || cfg.FanOut > 10000) {
 		// fan-out 2 makes SetStaticSetMembers recurse forever (1 subset holding
 		// everything); the production value is 10000
 		out.Inconclusive = "bad plan: fan-out outside 3..10000"
@@ -197,8 +208,25 @@ func execDir(rc *harness.RunCtx, p *harness.Plan, cfg *DirCfg) *harness.Outcome 
 			return out
 		}
 	}
-	old := schema.VerifSetMaxStaticSetMembers(cfg.FanOut)
-	defer schema.VerifSetMaxStaticSetMembers(old)
+	if prod {
+		// read the shipped threshold (set, read back, restore)
+		shipped := schema.VerifSetMaxStaticSetMembers(3)
+		schema.VerifSetMaxStaticSetMembers(shipped)
+		if shipped < 3 || shipped > 200000 {
+			out.Inconclusive = fmt.Sprintf("shipped static-set threshold %d outside what this mode handles", shipped)
+			return out
+		}
+		cfg.FanOut = shipped
+		members = members[:0]
+		for i := 0; i < shipped+cfg.ProdDelta; i++ {
+			members = append(members, MemberOp{Name: fmt.Sprintf("m%06d", i), Kind: "file"})
+		}
+		out.Ops = len(members)
+		out.Reached = map[string]int{"dir-shipped-threshold": 1}
+	} else {
+		old := schema.VerifSetMaxStaticSetMembers(cfg.FanOut)
+		defer schema.VerifSetMaxStaticSetMembers(old)
+	}
 
 	st := sim.NewStoreState(dirStore)
 	defer release(st)
@@ -224,7 +252,14 @@ func execDir(rc *harness.RunCtx, p *harness.Plan, cfg *DirCfg) *harness.Outcome 
 	var dirRef blob.Ref
 	var perr error
 	var topSplit bool
+	var builderPanic any
 	if trouble, _ := run("build", func() {
+		defer func() {
+			// the builder panics on a schema blob above the size limit
+			if r := recover(); r != nil {
+				builderPanic = r
+			}
+		}()
 		empty := blob.RefFromString("")
 		for _, m := range members {
 			var bb *schema.Builder
@@ -265,6 +300,12 @@ func execDir(rc *harness.RunCtx, p *harness.Plan, cfg *DirCfg) *harness.Outcome 
 	}); trouble != "" {
 		out.Inconclusive = "scheduler (build): " + trouble
 		return out
+	}
+	if builderPanic != nil {
+		return viol(out, "dir", "dir-builder-panic", fmt.Sprintf("directory of %d members with static-set fan-out %d: the builder panicked: %v", len(members), cfg.FanOut, builderPanic), -1)
+	}
+	if perr != nil && prod {
+		return viol(out, "dir", "dir-builder-error", fmt.Sprintf("directory of %d members with the shipped static-set fan-out %d cannot be stored: %v", len(members), cfg.FanOut, perr), -1)
 	}
 	if perr != nil {
 		out.Inconclusive = "building the directory: " + perr.Error()
